@@ -3,17 +3,20 @@ From TM Require Import Base.Prelude Base.PyList C03.Model C03.Spec C03.Proofs.
 Open Scope Z_scope.
 
 (* For EVERY example-wise user model (any list of output heads [hs], each an arbitrary function
-   of the flags, x_i and [a_0[i]; a_1[i]; ...]), every initial module / autograd state, every
+   of the flags, x_i and [a_0[i]; a_1[i]; ...]), every initial module / autograd state -- ANY
+   combination of training flags of the root module and its sub-modules (root in evaluation
+   mode with children in training mode included), gradients on or off --, every
    batch size b >= 1 (smaller than, equal to, larger than, or not dividing n), every n >= 1 and
    any number of extra arguments whose leading dimension is n:
-   predict returns exactly [h false false x_i args_i | i < n] in input order -- a tensor for
+   predict returns exactly [h all-false false x_i args_i | i < n] in input order -- a tensor for
    single-output models, one tensor per output for tuple / list models -- and the trace of
-   forward calls is the list of windows of range(0, n, min(b, n)), each under
-   training = false, grad = false, with X and every arg sliced by the same window.        *)
+   forward calls is the list of windows of range(0, n, min(b, n)), each with the training flag
+   of EVERY sub-module false and grad = false, with X and every arg sliced by the same window. *)
 Theorem c03_predict_examplewise :
   forall (k : okind) (hs : list head) (s0 : mstate) (b : Z) (X : list row) (args : list arg),
     1 <= b -> X <> [] -> Forall (fun a => length a = length X) args ->
-    predict_model (g_ex k hs) s0 b X args = (Ok (expected k hs X args), expected_trace b X args).
+    predict_model (g_ex k hs) s0 b X args
+    = (Ok (expected k hs (all_eval (training s0)) X args), expected_trace (all_eval (training s0)) b X args).
 Proof. exact predict_examplewise. Qed.
 Print Assumptions c03_predict_examplewise.
 
@@ -21,10 +24,10 @@ Print Assumptions c03_predict_examplewise.
    each arg; the windows of X, of each arg, and of the aligned tuples partition the input in
    order *)
 Theorem c03_trace_facts :
-  forall (b : Z) (X : list row) (args : list arg),
+  forall (fl0 : list bool) (b : Z) (X : list row) (args : list arg),
     1 <= b -> X <> [] -> Forall (fun a => length a = length X) args ->
-    let t := expected_trace b X args in
-    Forall (fun r => cr_training r = false /\ cr_grad r = false /\
+    let t := expected_trace (all_eval fl0) b X args in
+    Forall (fun r => Forall (fun t => t = false) (cr_training r) /\ cr_grad r = false /\
                      exists s, (s < length X)%nat /\
                                cr_X r = window s (batch_of b X) X /\
                                cr_args r = map (window s (batch_of b X)) args) t /\
@@ -55,13 +58,14 @@ Proof. exact predict_trace. Qed.
 Print Assumptions c03_trace.
 
 (* the hypotheses are satisfiable: n = 5, b = 2 (n mod b <> 0), two args with per-example
-   distinct values, tuple output with two heads; the last batch is the partial one *)
+   distinct values, tuple output with two heads; the last batch is the partial one; the module
+   is handed over with the root in evaluation mode and two of its children in training mode *)
 Example c03_example :
-  model (Call KTuple 2 (MS true true) 2 [[1];[2];[3];[4];[5]]
+  model (Call KTuple 2 (MS [false; true; true] true) 2 [[1];[2];[3];[4];[5]]
               [[[10];[20];[30];[40];[50]]; [[7;7];[8;8];[9;9];[6;6];[5;5]]])
   = (Ok (YM [[[1;10;7;7];[2;20;8;8];[3;30;9;9];[4;40;6;6];[5;50;5;5]];
              [[2;20;14;14];[4;40;16;16];[6;60;18;18];[8;80;12;12];[10;100;10;10]]]),
-     [CR false false [[1];[2]] [[[10];[20]]; [[7;7];[8;8]]];
-      CR false false [[3];[4]] [[[30];[40]]; [[9;9];[6;6]]];
-      CR false false [[5]] [[[50]]; [[5;5]]]]).
+     [CR [false; false; false] false [[1];[2]] [[[10];[20]]; [[7;7];[8;8]]];
+      CR [false; false; false] false [[3];[4]] [[[30];[40]]; [[9;9];[6;6]]];
+      CR [false; false; false] false [[5]] [[[50]]; [[5;5]]]]).
 Proof. vm_compute. reflexivity. Qed.
